@@ -114,6 +114,18 @@ Theorem C09_wait_results_are_an_admissible_oracle :
 Proof. exact wait_results_admissible. Qed.
 Print Assumptions C09_wait_results_are_an_admissible_oracle.
 
+(* the hypothesis "every child exits once" (pairwise distinct pids) is needed.  The kernel may hand the pid of a
+   reaped child to a new one while the first exit is still queued; the values returned by wait() then
+   name one pid twice, and the executor, which keys its in-flight table by pid, charges the queued
+   exit to the newly started operation (known finding F4, shown on the real code by the check). *)
+Theorem C09_admissible_oracle_needs_distinct_pids_refuted :
+  exists tr s, rrun false rinit tr = Some s /\ ~ NoDup (map fst (returned s)).
+Proof.
+  exists [EvExit 1 0; EvDeliver; EvHandler; EvCall; EvTest; EvExit 1 3; EvDeliver; EvHandler; EvCall; EvTest]. eexists.
+  split; [vm_compute; reflexivity|]. cbn. intros H. inversion H as [|x l Hin _]; subst. apply Hin. left. reflexivity.
+Qed.
+Print Assumptions C09_admissible_oracle_needs_distinct_pids_refuted.
+
 (* the protocol before /repo 2ba821d (the Python-level handler is the only writer of the pipe) loses
    a wake-up: D17, found as real hangs, kept as a machine-checked record *)
 Theorem C09_old_protocol_refuted :
